@@ -484,10 +484,36 @@ class CallMixin:
         h = self.reg.ext_models.get(("new", name))
         if h is not None:
             return h(self, st, args, kwargs, node)
+        nt = self.namedtuple_fields(name)
+        if nt is not None:
+            return self.construct_namedtuple(st, name, nt, args, kwargs, node)
         dc = self.dataclass_fields(name)
         if dc is not None:
             return self.construct_dataclass(st, name, dc, args, kwargs, node)
         return self.havoc_call(st, f"new {name}", args, node)
+
+    def namedtuple_fields(self, name):
+        """[(field, default expr|None)] for a `class X(NamedTuple)` defined in the current module, else None."""
+        cls = self.module.classes.get(name)
+        if cls is None or not any(ast.unparse(b) in ("NamedTuple", "typing.NamedTuple") for b in cls.bases):
+            return None
+        return [(b.target.id, b.value) for b in cls.body if isinstance(b, ast.AnnAssign) and isinstance(b.target, ast.Name)]
+
+    def construct_namedtuple(self, st, name, fields, args, kwargs, node):
+        from .values import VNamedTuple
+        names = [f for f, _d in fields]
+        if len(args) > len(names) or any(k not in names for k in kwargs) or any(k in names[:len(args)] for k in kwargs):
+            self.raise_in(st, self.mk_exc("TypeError"))
+            return []
+        data = dict(zip(names, args))
+        data.update(kwargs)
+        for f, d in fields:
+            if f not in data:
+                if d is None:
+                    self.raise_in(st, self.mk_exc("TypeError"))
+                    return []
+                data[f] = self.ev(d, State())[0][1]
+        return [(st, VNamedTuple([data[f] for f in names], names, name))]
 
     def dataclass_fields(self, name):
         """[(field, default expr|None)] for a @dataclass defined in the current
